@@ -81,7 +81,7 @@ func (g *genState) tree(depth int) *node {
 	default:
 		n := &node{kind: 'C', cond: genCond(r), scope: groupScopes[r.Intn(len(groupScopes))]}
 		n.kids = []*node{g.tree(depth + 1)}
-		if r.Bool() {
+		if r.Bool() && n.cond.kind != 'p' {
 			n.els = g.tree(depth + 1)
 		}
 		return n
@@ -161,7 +161,12 @@ var (
 
 func pickS(r *core.Rand, xs []string) string { return xs[r.Intn(len(xs))] }
 
+var uPorts = []string{"80", "443", "8080", "8080", "0", "81"}
+
 func genCond(r *core.Rand) *condSpec {
+	if r.Chance(1, 16) {
+		return &condSpec{kind: 'p', a: pickS(r, uPorts)}
+	}
 	switch r.Intn(10) {
 	case 0, 1:
 		return &condSpec{kind: 'm', a: pickS(r, uMethods)}
@@ -250,6 +255,18 @@ func satisfy(r *core.Rand, c *condSpec, m *message) {
 		default:
 			kv := [2]string{r.Pick(c.a, strings.ToLower(c.a), strings.ToUpper(c.a)), c.b}
 			m.reqHdr, m.resHdr = append(m.reqHdr, kv), append(m.resHdr, kv)
+		}
+	case 'p':
+		if i := strings.IndexByte(m.host, ':'); i >= 0 {
+			m.host = m.host[:i]
+		}
+		switch c.a {
+		case "80":
+			m.scheme = "http"
+		case "443":
+			m.scheme = "https"
+		default:
+			m.host += ":" + c.a
 		}
 	case 'c':
 		kv := [2]string{c.a, c.b}
@@ -418,7 +435,7 @@ func (g *genState) wideGroup(w int) *node {
 			c = &node{kind: 'F', scope: "n", agg: r.Bool(), kids: []*node{g.quietLeaf(failDen), g.quietLeaf(failDen)}}
 		case 1:
 			c = &node{kind: 'C', cond: genCond(r), scope: "n", kids: []*node{g.quietLeaf(failDen)}}
-			if r.Bool() {
+			if r.Bool() && c.cond.kind != 'p' {
 				c.els = g.quietLeaf(failDen)
 			}
 		case 2:
